@@ -261,16 +261,28 @@ Proof.
 Qed.
 
 (* one good call that keeps the snapshot valid preserves the invariant *)
-Lemma sinv_step : forall fx s0 s o s1 ret,
-  sinv fx s0 s -> good_op fx s o = true -> step fx o s = Some (s1, ret) -> valid_id (next_rev s0) s1 = true ->
+(* the same conditions as propositions (what the step lemma needs) *)
+Definition good_opP (fx : fixes) (s : state) (o : op) : Prop :=
+  match o with
+  | OAddBalance a v => a = ripemd -> v <> 0%Z
+  | OPrepare _ _ => False
+  | ORemoveValidator a => f_journal fx = true /\ remove_ok fx (sv s) a
+  | ORemoveWithdraws idx => f_journal fx = true /\ NoDup idx
+  | OCreateValidator a _ _ _ _ => create_ok fx (sv s) a
+  | OUpdateVal a _ _ _ _ _ => update_ok (sv s) a
+  | OGetValidator a => get_ok (sv s) a
+  | _ => True
+  end.
+
+Lemma sinv_stepP : forall fx s0 s o s1 ret,
+  sinv fx s0 s -> good_opP fx s o -> step fx o s = Some (s1, ret) -> valid_id (next_rev s0) s1 = true ->
   sinv fx s0 s1.
 Proof.
   intros fx s0 s o s1 ret Hinv Hg Hs Hval.
   pose proof (i_awf _ _ _ Hinv) as Hw.
-  destruct o; cbn in Hs, Hg; try discriminate Hg.
+  destruct o; cbn in Hs, Hg; try contradiction.
   - (* AddBalance *)
-    inversion Hs; subst. destruct (op_add_balance (sa s) a v Hw) as [H1 H2].
-    { intros -> ->. now rewrite N.eqb_refl in Hg. }
+    inversion Hs; subst. destruct (op_add_balance (sa s) a v Hw Hg) as [H1 H2].
     now apply sinv_with_a.
   - inversion Hs; subst. destruct (op_sub_balance (sa s) a v Hw). now apply sinv_with_a.
   - inversion Hs; subst. destruct (op_set_balance (sa s) a v Hw). now apply sinv_with_a.
@@ -290,24 +302,24 @@ Proof.
   - inversion Hs; subst. destruct (op_update_delegator (sa s) a tov delta dl Hw). now apply sinv_with_a.
   - (* CreateValidator *)
     destruct (create_validator (sv s) a role status stake token) as [v1 r] eqn:E. inversion Hs; subst.
-    apply sinv_with_v; auto. pose proof (op_create_validator fx (sv s) a role status stake token (create_okb_ok _ _ _ Hg)) as H.
+    apply sinv_with_v; auto. pose proof (op_create_validator fx (sv s) a role status stake token Hg) as H.
     now rewrite E in H.
   - destruct (update_val_op (sv s) a role status stake token payload) as [v1 r] eqn:E. inversion Hs; subst.
-    apply sinv_with_v; auto. pose proof (op_update_val fx (sv s) a role status stake token payload (update_okb_ok _ _ Hg)) as H.
+    apply sinv_with_v; auto. pose proof (op_update_val fx (sv s) a role status stake token payload Hg) as H.
     now rewrite E in H.
   - (* RemoveValidator: repaired code only *)
-    destruct (f_journal fx) eqn:Efj; [|discriminate Hg]. cbn in Hg.
+    destruct Hg as [Efj Hg].
     destruct (remove_validator fx (sv s) a) as [v1 r] eqn:E. inversion Hs; subst.
-    apply sinv_with_v; auto. pose proof (op_remove_validator_fixed fx (sv s) a Efj (remove_okb_ok _ _ _ Hg)) as H.
+    apply sinv_with_v; auto. pose proof (op_remove_validator_fixed fx (sv s) a Efj Hg) as H.
     now rewrite E in H.
   - destruct (get_validator (sv s) a) as [v1 r] eqn:E. inversion Hs; subst.
-    apply sinv_with_v; auto. pose proof (op_get_validator (sv s) a (get_okb_ok _ _ Hg)) as H.
+    apply sinv_with_v; auto. pose proof (op_get_validator (sv s) a Hg) as H.
     rewrite E in H. cbn in H. subst. apply vext_refl.
   - inversion Hs; subst. apply sinv_with_v; auto using op_add_withdraw.
   - (* RemoveWithdrawRecords: repaired code only *)
-    destruct (f_journal fx) eqn:Efj; [|discriminate Hg]. cbn in Hg. apply negb_true_iff in Hg.
+    destruct Hg as [Efj Hg].
     destruct (remove_withdraws fx (sv s) idx) as [v1|] eqn:E; [|discriminate]. inversion Hs; subst.
-    apply sinv_with_v; auto. eapply op_remove_withdraws_fixed; eauto using has_dup_NoDup.
+    apply sinv_with_v; auto. eapply op_remove_withdraws_fixed; eauto.
   - (* Snapshot *)
     inversion Hs; subst. clear Hs.
     destruct Hinv as [H0 Ha Hv _ (R & VR & Hr & Hvr & Hm & HR & HVR) Hn].
@@ -363,6 +375,22 @@ Proof.
   - inversion Hs; subst. discriminate Hval.
   - inversion Hs; subst. discriminate Hval.
 Qed.
+
+Lemma good_op_P : forall fx s o, good_op fx s o = true -> good_opP fx s o.
+Proof.
+  intros fx s o H. destruct o; cbn in *; auto; try discriminate.
+  - intros -> ->. now rewrite N.eqb_refl in H.
+  - now apply create_okb_ok.
+  - now apply update_okb_ok.
+  - apply andb_true_iff in H. destruct H. split; [assumption | now apply remove_okb_ok].
+  - now apply get_okb_ok.
+  - apply andb_true_iff in H. destruct H as [H1 H2]. split; [assumption|]. apply has_dup_NoDup. now apply negb_true_iff.
+Qed.
+
+Lemma sinv_step : forall fx s0 s o s1 ret,
+  sinv fx s0 s -> good_op fx s o = true -> step fx o s = Some (s1, ret) -> valid_id (next_rev s0) s1 = true ->
+  sinv fx s0 s1.
+Proof. intros. eapply sinv_stepP; eauto using good_op_P. Qed.
 
 (* a window preserves the invariant *)
 Lemma sinv_window : forall fx s0 ops s s',
